@@ -68,10 +68,10 @@ def hdr_view(case, lines):
 
 
 reg(Spec("C09", "Frame headers carry consecutive counters and the encoder's identity", ["AsamCmp.Props.C09"],
-         ["AsamCmp.C09_header_bytes", "AsamCmp.C09_encode", "AsamCmp.C09_config", "AsamCmp.C09_headers"], ["AsamCmp.Props.C09"], gen_enc.gen_c09, view=hdr_view,
+         ["AsamCmp.C09_header_bytes", "AsamCmp.C09_encode", "AsamCmp.C09_config", "AsamCmp.C09_headers"], ["AsamCmp.Props.C09"], gen_enc.gen_c09, view=hdr_view, predicate=gen_enc.pred_c09,
          rule="exhaustive op sequences over a 7-letter alphabet, random 30-op histories, one history of > 65536 frames; view = first 8 bytes of every frame + reported counter"))
 reg(Spec("C10", "Encoder output does not depend on earlier encode calls", ["AsamCmp.Props.C10"],
-         ["AsamCmp.C10_encode_any_state", "AsamCmp.C10_history_independent", "AsamCmp.C10_same_shape"], ["AsamCmp.Props.C10"], gen_enc.gen_c10, view=last_lines(6),
+         ["AsamCmp.C10_encode_any_state", "AsamCmp.C10_history_independent", "AsamCmp.C10_same_shape"], ["AsamCmp.Props.C10"], gen_enc.gen_c10, view=last_lines(6), predicate=gen_enc.pred_c10,
          rule="history of 1..6 earlier encode calls, then the same batch on the used and on a fresh encoder"))
 
 
@@ -80,7 +80,7 @@ reg(Spec("C02", "Decoding arbitrary bytes is memory-safe and terminates", ["Asam
          predicate=gen_dec.pred_c02,
          rule="well-formed frames of every kind truncated at every offset and with every length/type/flag field corrupted, TECMP frames of all message types, random byte strings, histories; inputs live in exact-size heap blocks freed before the packets are read back, the decoder is destroyed before the last read; view = packet count, payload length and validity, sanitizer verdict"))
 reg(Spec("C04", "Decoded packets report exactly what is on the wire", ["AsamCmp.Props.C04"],
-         ["AsamCmp.C04.C04_wire", "AsamCmp.C04.C04_pad", "AsamCmp.C04.C04_truncate", "AsamCmp.C04.C04_invalid_marked"], ["AsamCmp.Props.C04"], gen_dec.gen_c04,
+         ["AsamCmp.C04.C04_wire", "AsamCmp.C04.C04_pad", "AsamCmp.C04.C04_truncate", "AsamCmp.C04.C04_invalid_marked"], ["AsamCmp.Props.C04"], gen_dec.gen_c04, predicate=gen_dec.pred_c04,
          rule="frames built from the protocol table: 0..8 messages of all kinds, consistent and inconsistent inner lengths, error flags, every truncation, zero padding, prior history"))
 reg(Spec("C05", "Segmented messages reassemble under any interleaving", ["AsamCmp.Props.C05"],
          ["AsamCmp.expected_payload", "AsamCmp.reassemble_single", "AsamCmp.reassemble_many", "AsamCmp.C05_interleaved", "AsamCmp.run_filter"], ["AsamCmp.Props.C05"], gen_dec.gen_c05, predicate=gen_dec.pred_c05,
@@ -90,10 +90,10 @@ reg(Spec("C06", "Loss, duplication or reordering never yields a corrupted packet
          view=lambda c, l: l[-3:],
          rule="encoder output under fault scripts: single faults (drop/dup/swap/corrupt version/corrupt type) and random fault sequences, clean tail for recovery"))
 reg(Spec("C15", "TECMP messages convert to equivalent ASAM CMP packets", ["AsamCmp.Props.C15"],
-         ["AsamCmp.C15.hdr_length", "AsamCmp.C15.C15_can", "AsamCmp.C15.C15_lin", "AsamCmp.C15.C15_cm", "AsamCmp.C15.C15_bus", "AsamCmp.C15.C15_unsupported", "AsamCmp.C15.C15_misfit_can", "AsamCmp.C15.C15_misfit_lin", "AsamCmp.C15.C15_misfit_cm", "AsamCmp.C15.C15_misfit_bus", "AsamCmp.C15.C15_misfit_header", "AsamCmp.C15.C15_valid_payloads"], ["AsamCmp.Props.C15"], gen_dec.gen_c15,
+         ["AsamCmp.C15.hdr_length", "AsamCmp.C15.C15_can", "AsamCmp.C15.C15_lin", "AsamCmp.C15.C15_cm", "AsamCmp.C15.C15_bus", "AsamCmp.C15.C15_unsupported", "AsamCmp.C15.C15_misfit_can", "AsamCmp.C15.C15_misfit_lin", "AsamCmp.C15.C15_misfit_cm", "AsamCmp.C15.C15_misfit_bus", "AsamCmp.C15.C15_misfit_header", "AsamCmp.C15.C15_valid_payloads"], ["AsamCmp.Props.C15"], gen_dec.gen_c15, predicate=gen_dec.pred_c15,
          rule="TECMP frames from the layout table: CAN/CAN-FD/LIN of every data length, capture-module and bus status, all 256 message types, inconsistent lengths"))
 reg(Spec("C17", "Decoder keeps reassembly state only for messages in progress", ["AsamCmp.Props.C17"],
-         ["AsamCmp.parseFrame_WF", "AsamCmp.localStep_refines", "AsamCmp.C17_pending_iff_open", "AsamCmp.C17_pending_bytes", "AsamCmp.C17_idle_empty", "AsamCmp.C17_support", "AsamCmp.C17_release", "AsamCmp.C17_last_releases", "AsamCmp.decode_foreign_state"], ["AsamCmp.Props.C17"], gen_dec.gen_c17,
+         ["AsamCmp.parseFrame_WF", "AsamCmp.localStep_refines", "AsamCmp.C17_pending_iff_open", "AsamCmp.C17_pending_bytes", "AsamCmp.C17_idle_empty", "AsamCmp.C17_support", "AsamCmp.C17_release", "AsamCmp.C17_last_releases", "AsamCmp.decode_foreign_state"], ["AsamCmp.Props.C17"], gen_dec.gen_c17, predicate=gen_dec.pred_c17,
          rule="exhaustive histories over {unseg, first, inter, last, invalid, header-only, unseg+inter, TECMP, short} x 2 endpoints x good/bad counter; random histories; pending table read after every frame"))
 reg(Spec("C18", "Endpoints are isolated from each other", ["AsamCmp.Props.C18"],
          ["AsamCmp.runT_untag", "AsamCmp.delivered_tagged", "AsamCmp.run_filter", "AsamCmp.C18_isolation", "AsamCmp.decode_foreign_state", "AsamCmp.decode_other_endpoint"], ["AsamCmp.Props.C18"], gen_dec.gen_c18, predicate=gen_dec.pred_c18,
